@@ -4,7 +4,7 @@
    encoder transcribed from the ledger codec; plutus_bytes d = enc (plutus_ref d);  pv = Python values
    (PObj = instance of a typed PlutusData class described by ty, PRaw = RawPlutusData, PTag = CBORTag, PIList =
    IndefiniteList, PBStr = ByteString);  abs : pv -> data is the content of a Python value;  to_cbor,
-   typed_from_cbor, raw_from_cbor, raw_from_dict, t_dict/r_dict (to_dict), t_undict/r_undict (from_dict) model
+   typed_from_cbor, raw_from_cbor, raw_from_dict, t_dict/r_dict (to_dict), t_undict pp/r_undict (from_dict; pp = string annotations) model
    pycardano;  m_dec / m_todict / m_json_rt / m_fromdict (PyC.PlutusOracle) are the composite routes.
    Every premise is a decidable boolean (PyC.PlutusOracle) except wf (all lengths and ids fit a 64-bit head). *)
 From Coq Require Import NArith ZArith String List Bool.
@@ -140,13 +140,59 @@ Theorem C18_long_guard : forall id fts vals b,
 Proof. exact long_guard. Qed.
 Print Assumptions C18_long_guard.
 
+(* the guard is a function of the field VALUES alone: for every list of declared field types fts (bytes, Datum,
+   Union[..], Dict[..], the unevaluated strings of postponed annotations -- fts is universally quantified and does
+   not occur on the right-hand sides) the constructor refuses exactly the value lists that hold plain bytes over
+   64 bytes, and builds the object otherwise *)
+Theorem C18_long_guard_iff : forall id fts vals,
+  (length fts <= length vals)%nat ->
+  (mk_obj id fts vals = Err E_InvArg <-> exists b, In (PBytes b) vals /\ (64 < length b)%nat)
+  /\ (mk_obj id fts vals = Ok (PObj id fts vals) <-> ~ exists b, In (PBytes b) vals /\ (64 < length b)%nat).
+Proof. exact guard_iff. Qed.
+Print Assumptions C18_long_guard_iff.
+
+(* why the guard has to refuse: an object with plain bytes over 64 bytes in a field, whatever the field's declared
+   type, cannot encode to the reference bytes of its content (cbor2 writes one definite string, the ledger codec
+   64-byte chunks) -- so "refuse or canonical" leaves only "refuse" *)
+Theorem C18_long_guard_needed : forall id fts fs b c,
+  In (PBytes b) fs -> (64 < length b)%nat ->
+  dumps (to_prim (PObj id fts fs)) = Ok c -> wf c -> wf (plutus_ref (abs (PObj id fts fs))) ->
+  enc c <> plutus_bytes (abs (PObj id fts fs)).
+Proof. exact guard_needed. Qed.
+Print Assumptions C18_long_guard_needed.
+
+(* witnesses per declared type (bytes, Datum, Union with bytes first / last, Dict[int, int]): the constructor
+   refuses 65 plain bytes; the object, did it exist, would pass validate() and write other bytes;  and the decode
+   side: the reference bytes of that content are refused by the class as well (the decoder joins the chunks into
+   plain bytes and the constructor's guard fires), while a Union[ByteString, ..] field takes them *)
+Theorem C18_long_guard_witnesses :
+  (guard_witness TBytes /\ guard_witness TDatum /\ guard_witness (TUnion [TBytes; T_in])
+   /\ guard_witness (TUnion [T_in; TBytes]) /\ guard_witness (TDict TInt TInt))
+  /\ typed_from_cbor 0 [TBytes] (plutus_bytes (Constr 0 [Bs b65])) = Err E_InvArg
+  /\ typed_from_cbor 0 [TDatum] (plutus_bytes (Constr 0 [Bs b65])) = Err E_InvArg
+  /\ typed_from_cbor 0 [TUnion [T_in; TBytes]] (plutus_bytes (Constr 0 [Bs b65])) = Err E_InvArg
+  /\ typed_from_cbor 0 [TUnion [TBStr; T_in]] (plutus_bytes (Constr 0 [Bs b65])) = Ok (PObj 0 [TUnion [TBStr; T_in]] [PBStr b65]).
+Proof. exact (conj guard_witnesses guard_decode_witnesses). Qed.
+Print Assumptions C18_long_guard_witnesses.
+
+(* ---- postponed annotations (`from __future__ import annotations`): from_dict reads dataclasses.Field.type raw, a
+   string until from_primitive has run on the class.  For a class whose fields are all declared int / bytes /
+   ByteString / IndefiniteList every route of the model is the same with and without string annotations; with a
+   class-typed field the JSON route is refuted (C18_typed_json_postponed_refuted) ---- *)
+Theorem C18_postponed_atomic : forall route id fts x,
+  forallb atomic_ty fts = true -> typed_model route true (TCls id fts) x = typed_model route false (TCls id fts) x.
+Proof. exact typed_model_pp_atomic. Qed.
+Print Assumptions C18_postponed_atomic.
+
 (* ---- the region classifier used by the correspondence run is sound: a route outside every known region gives,
-   in the model, exactly what the property demands (so a failing implementation output there is a violation) ---- *)
+   in the model, exactly what the property demands (so a failing implementation output there is a violation).
+   Changed with the extension to postponed annotations: typed_region / typed_model take the declaration mode pp
+   (universally quantified here); the premises now include guard_ok x (region long-bytes-guard-bypassed) ---- *)
 Theorem C18_regions_sound :
   (forall route d, wf (plutus_ref d) -> (route <= 8)%nat -> raw_region route d = RG_none ->
                    raw_model route d = raw_expect route d)
-  /\ (forall route t x, (route <= 1)%nat -> validate x = true -> typed_region route t x = RG_none ->
-                        typed_model route t x = typed_expect route x).
+  /\ (forall route pp t x, (route <= 1)%nat -> validate x = true -> typed_region route pp t x = RG_none ->
+                        typed_model route pp t x = typed_expect route x).
 Proof. exact (conj raw_region_sound typed_region_sound). Qed.
 Print Assumptions C18_regions_sound.
 
@@ -217,13 +263,13 @@ Proof. exact typed_list_rt_refuted. Qed.
 Print Assumptions C18_typed_list_rt_refuted.
 Theorem C18_typed_json_bytes_refuted :
   let x := PObj 0 [TBStr] [PBStr [Byte.x61]] in
-  to_cbor x = Ok (plutus_bytes (abs x)) /\ (do j <- t_dict x; do y <- t_undict 0 [TBStr] j; to_cbor y) = Err E_Type.
+  to_cbor x = Ok (plutus_bytes (abs x)) /\ (do j <- t_dict x; do y <- t_undict false 0 [TBStr] j; to_cbor y) = Err E_Type.
 Proof. exact typed_json_bytes_refuted. Qed.
 Print Assumptions C18_typed_json_bytes_refuted.
 Theorem C18_typed_json_nested_refuted :
   let x := PObj 5 [TList (TList (TCls 2 [TInt]))] [PIList [PIList [PObj 2 [TInt] [PInt 3]]]] in
   to_cbor x = Ok (plutus_bytes (abs x)) /\
-  (do j <- t_dict x; do y <- t_undict 5 [TList (TList (TCls 2 [TInt]))] j; to_cbor y) = Err E_Deser.
+  (do j <- t_dict x; do y <- t_undict false 5 [TList (TList (TCls 2 [TInt]))] j; to_cbor y) = Err E_Deser.
 Proof. exact typed_json_nested_refuted. Qed.
 Print Assumptions C18_typed_json_nested_refuted.
 Theorem C18_typed_long_in_container_refuted :
@@ -239,3 +285,23 @@ Theorem C18_typed_chunk_refuted :
   differs (do y <- typed_from_cbor 3 [TIList] (plutus_bytes (abs x)); to_cbor y) (abs x).
 Proof. exact typed_datum_chunk_refuted. Qed.
 Print Assumptions C18_typed_chunk_refuted.
+(* a Union-typed field holding an int / bytes value: from_dict looks for f["constructor"] (KeyError), or finds no
+   class alternative at all (DeserializeException); the object itself encodes correctly *)
+Theorem C18_typed_json_union_prim_refuted :
+  let x := PObj 0 [TUnion [TBytes; T_in]] [PBytes [Byte.x61]] in
+  let y := PObj 0 [TUnion [TBytes; TInt]] [PBytes [Byte.x61]] in
+  to_cbor x = Ok (plutus_bytes (abs x))
+  /\ (do j <- t_dict x; do z <- t_undict false 0 [TUnion [TBytes; T_in]] j; to_cbor z) = Err E_Key
+  /\ to_cbor y = Ok (plutus_bytes (abs y))
+  /\ (do j <- t_dict y; do z <- t_undict false 0 [TUnion [TBytes; TInt]] j; to_cbor z) = Err E_Deser.
+Proof. exact typed_json_union_prim_refuted. Qed.
+Print Assumptions C18_typed_json_union_prim_refuted.
+(* the same class and value, declared with evaluated / with postponed (string) annotations: the JSON route works /
+   raises DeserializeException (the nested constructor is converted by the outer class's generic _dfs) *)
+Theorem C18_typed_json_postponed_refuted :
+  let x := PObj 0 [T_in] [PObj 1 [TInt] [PInt 1]] in
+  to_cbor x = Ok (plutus_bytes (abs x))
+  /\ (do j <- t_dict x; do z <- t_undict false 0 [T_in] j; to_cbor z) = Ok (plutus_bytes (abs x))
+  /\ (do j <- t_dict x; do z <- t_undict true 0 [T_in] j; to_cbor z) = Err E_Deser.
+Proof. exact typed_json_postponed_refuted. Qed.
+Print Assumptions C18_typed_json_postponed_refuted.
